@@ -351,6 +351,10 @@ func (l *lexer) acceptRun(ttype int, valid string) bool {
 
 func (l *lexer) acceptString() bool {
 	begin := l.next()
+	if begin == eof {
+		// nothing left: an empty token here would be accepted over and over
+		return false
+	}
 	isDblQuote := begin == char_doublequote
 	isSglQuote := begin == char_singlequote
 	isSpaceDelim := !isSglQuote && !isDblQuote
